@@ -24,12 +24,14 @@ type GenOpts struct {
 	StarStarOnlyLast bool // "**" only as the very last atom (google's restriction)
 	NoTyped          bool // only string fields
 	MaxSegs          int
+	Lits             []string // literal pool (default LitPool)
+	Verbs            []string // :verb pool (default VerbPool)
 }
 
 // FieldKind returns a one-letter kind for a path-eligible field.
 func FieldKind(f string) string {
 	switch f {
-	case "i32", "sub.n":
+	case "i32", "sub.n", "page_size", "pageSize":
 		return "i32"
 	case "i64", "sub.inner.num":
 		return "i64"
@@ -52,6 +54,12 @@ func GenTemplate(t *rapid.T, o GenOpts) *ref.Template {
 	if o.MaxSegs == 0 {
 		o.MaxSegs = 5
 	}
+	if o.Lits == nil {
+		o.Lits = LitPool
+	}
+	if o.Verbs == nil {
+		o.Verbs = VerbPool
+	}
 	n := rapid.IntRange(1, o.MaxSegs).Draw(t, "nsegs")
 	used := map[string]bool{}
 	tm := &ref.Template{}
@@ -61,7 +69,7 @@ func GenTemplate(t *rapid.T, o GenOpts) *ref.Template {
 		k := rapid.IntRange(0, 19).Draw(t, "segkind")
 		switch {
 		case k < 9 || (i == 0 && k < 14):
-			tm.Segs = append(tm.Segs, ref.Seg{Kind: ref.Lit, Lit: rapid.SampledFrom(LitPool).Draw(t, "lit")})
+			tm.Segs = append(tm.Segs, ref.Seg{Kind: ref.Lit, Lit: rapid.SampledFrom(o.Lits).Draw(t, "lit")})
 		case k < 11:
 			tm.Segs = append(tm.Segs, ref.Seg{Kind: ref.Star})
 		case k < 12:
@@ -82,14 +90,14 @@ func GenTemplate(t *rapid.T, o GenOpts) *ref.Template {
 				}
 			}
 			if len(free) == 0 {
-				tm.Segs = append(tm.Segs, ref.Seg{Kind: ref.Lit, Lit: rapid.SampledFrom(LitPool).Draw(t, "lit")})
+				tm.Segs = append(tm.Segs, ref.Seg{Kind: ref.Lit, Lit: rapid.SampledFrom(o.Lits).Draw(t, "lit")})
 				continue
 			}
 			f := rapid.SampledFrom(free).Draw(t, "field")
 			used[f] = true
 			sg := ref.Seg{Kind: ref.Var, Field: strings.Split(f, "."), Pat: []ref.Seg{{Kind: ref.Star}}}
 			if FieldKind(f) == "str" {
-				lit := func() ref.Seg { return ref.Seg{Kind: ref.Lit, Lit: rapid.SampledFrom(LitPool).Draw(t, "plit")} }
+				lit := func() ref.Seg { return ref.Seg{Kind: ref.Lit, Lit: rapid.SampledFrom(o.Lits).Draw(t, "plit")} }
 				star, ss := ref.Seg{Kind: ref.Star}, ref.Seg{Kind: ref.StarStar}
 				switch p := rapid.IntRange(0, 9).Draw(t, "pat"); {
 				case p < 3:
@@ -121,7 +129,7 @@ func GenTemplate(t *rapid.T, o GenOpts) *ref.Template {
 		}
 	}
 	if hasVerb {
-		tm.Verb = rapid.SampledFrom(VerbPool).Draw(t, "tverb")
+		tm.Verb = rapid.SampledFrom(o.Verbs).Draw(t, "tverb")
 	}
 	// recompute flags through the parser
 	p, err := ref.ParseTemplate(tm.String())
@@ -384,4 +392,47 @@ func GenOverlappingRuleSet(t *rapid.T, o GenOpts, maxMethods int) RuleSet {
 		rs = append(rs, mr)
 	}
 	return rs
+}
+
+// InstantiateFixed fills wildcards deterministically with text that no
+// pool literal equals: '*' -> "zq<i>", '**' -> "zq<i>/zr<i>", typed
+// variables -> a valid constant.
+func InstantiateFixed(tm *ref.Template) (string, ref.Binding) {
+	atoms := tm.Atoms()
+	vars := tm.Vars()
+	caps := make([][]string, len(vars))
+	var segs []string
+	typed := map[string]string{"i32": "-7", "i64": "9007199254740993", "u64": "18446744073709551615", "bool": "true", "enum": "BETA", "dbl": "1.5", "bytes": "aGk"}
+	for ai, a := range atoms {
+		var parts []string
+		switch a.Kind {
+		case ref.Lit:
+			parts = []string{a.Lit}
+		case ref.Star:
+			kind := "str"
+			if a.Var >= 0 {
+				kind = FieldKind(strings.Join(vars[a.Var], "."))
+			}
+			if v, ok := typed[kind]; ok {
+				parts = []string{v}
+			} else {
+				parts = []string{fmt.Sprintf("zq%d", ai)}
+			}
+		case ref.StarStar:
+			parts = []string{fmt.Sprintf("zq%d", ai), fmt.Sprintf("zr%d", ai)}
+		}
+		segs = append(segs, parts...)
+		if a.Var >= 0 {
+			caps[a.Var] = append(caps[a.Var], parts...)
+		}
+	}
+	p := "/" + strings.Join(segs, "/")
+	if tm.Verb != "" {
+		p += ":" + tm.Verb
+	}
+	b := make(ref.Binding, len(vars))
+	for i := range vars {
+		b[i] = strings.Join(caps[i], "/")
+	}
+	return p, b
 }
